@@ -27,6 +27,8 @@ fn main() {
         "C05" => props::c05::run(&ctx),
         "C06" => props::c06::run(&ctx),
         "C07" => props::c07::run(&ctx),
+        "C08" => props::c08::run(&ctx),
+        "C12" => props::c12::run(&ctx),
         other => {
             eprintln!("unknown property {}", other);
             std::process::exit(2);
